@@ -1,5 +1,59 @@
-// commands of the later lanes; extended as the model grows
+// commands of the program-level lanes
+use crate::conv::*;
 use crate::sexp::Sexp;
-pub fn handle(cmd: &str, _args: &[Sexp]) -> Result<String, String> {
-    Err(format!("unknown command {cmd}"))
+use simplesl::variable::{ReturnType, Variable};
+use simplesl::{Code, Interpreter};
+
+fn parse(prog: &str, stdlib: bool) -> Result<Code, String> {
+    let interp = if stdlib { Interpreter::with_stdlib() } else { Interpreter::without_stdlib() };
+    Code::parse(&interp, prog).map_err(|e| format!("reject {}", variant_name(&e)))
+}
+
+fn show(res: Result<Variable, simplesl::ExecError>, types: bool) -> String {
+    match res {
+        Ok(v) => format!("ok {}", val_to_string(&v, types, &mut Ids::new(), 0)),
+        Err(e) => format!("err {}", variant_name(&e)),
+    }
+}
+
+pub fn handle(cmd: &str, args: &[Sexp]) -> Result<String, String> {
+    use Sexp::*;
+    match (cmd, args) {
+        // (run "program") : parse with stdlib, exec; value without hidden types
+        ("run", [S(p)]) | ("run-t", [S(p)]) => {
+            let code = match parse(p, true) {
+                Ok(c) => c,
+                Err(e) => return Ok(e),
+            };
+            Ok(show(code.exec(), cmd == "run-t"))
+        }
+        // (run-ty "program") : static type then result
+        ("run-ty", [S(p)]) => {
+            let code = match parse(p, true) {
+                Ok(c) => c,
+                Err(e) => return Ok(e),
+            };
+            let t = ty_to_string(&code.return_type());
+            Ok(format!("{} :: {}", show(code.exec(), true), t))
+        }
+        // (call "program yielding a function" v1 v2 ..) : host call through create_call
+        ("call", [S(p), vals @ ..]) | ("call-t", [S(p), vals @ ..]) => {
+            let code = match parse(p, true) {
+                Ok(c) => c,
+                Err(e) => return Ok(e),
+            };
+            let f = match code.exec() {
+                Ok(Variable::Function(f)) => f,
+                Ok(_) => return Err("not a function".into()),
+                Err(e) => return Ok(format!("err {}", variant_name(&e))),
+            };
+            let vs: Vec<Variable> = vals.iter().map(val_of_sexp).collect::<Result<_, _>>()?;
+            let call = match f.create_call(vs) {
+                Ok(c) => c,
+                Err(e) => return Ok(format!("reject {}", variant_name(&e))),
+            };
+            Ok(show(call.exec(), cmd == "call-t"))
+        }
+        _ => Err(format!("unknown command {cmd}")),
+    }
 }
